@@ -145,6 +145,33 @@ fn directed_steps() -> Vec<(&'static str, Vec<Step>)> {
                 Step::Close(Flush),
             ],
         ),
+        // a column with a category AND a width: a value the category accepts but the width does not must not be stored
+        (
+            "overlong-value-in-category-column",
+            vec![
+                create(
+                    "W",
+                    &vec![
+                        ColDef::new("K", CT::Int16).key(),
+                        ColDef::new("I", CT::Str(8)).cat("Identifier").nullable(),
+                        ColDef::new("T", CT::Str(6)).cat("Text").nullable(),
+                        ColDef::new("F", CT::Str(5)).cat("Formatted").nullable(),
+                        ColDef::new("U", CT::Str(4)).cat("UpperCase").nullable(),
+                    ],
+                ),
+                ins("W", vec![vec![V::Int(1), V::s("Ident_1"), V::s("t0x1"), V::s("[a]"), V::s("UP")]]),
+                ins("W", vec![vec![V::Int(2), V::s("Identifier_too_long"), V::Null, V::Null, V::Null]]),
+                ins("W", vec![vec![V::Int(3), V::Null, V::s("t0x3 text too long"), V::Null, V::Null]]),
+                ins("W", vec![vec![V::Int(4), V::Null, V::Null, V::s("[Property]x"), V::Null]]),
+                ins("W", vec![vec![V::Int(5), V::Null, V::Null, V::Null, V::s("UPPER")]]),
+                Step::Close(IntoInner),
+                d(Op::Update { table: "W".into(), sets: vec![("I".into(), V::s("Ident_123"))], cond: Some(keq("K", 1)) }),
+                d(Op::Update { table: "W".into(), sets: vec![("T".into(), V::s("t0x1234"))], cond: None }),
+                d(Op::Update { table: "W".into(), sets: vec![("F".into(), V::s("[abcd]"))], cond: None }),
+                d(Op::Update { table: "W".into(), sets: vec![("U".into(), V::s("UPPER"))], cond: Some(keq("K", 1)) }),
+                Step::Close(Flush),
+            ],
+        ),
         (
             "null-then-empty-string-key",
             vec![create("S", &sk), ins("S", vec![vec![V::Null, V::Int(1)]]), ins("S", vec![vec![V::s(""), V::Int(2)]]), Step::Close(IntoInner)],
